@@ -8,6 +8,13 @@ use std::io::{BufRead, Write};
 use vh_ops::optable::*;
 use vh_ops::*;
 
+/// Operators on 4-D (N, C, H, W) images: extra composed representations and extra weight.
+const FOUR_D: &[&str] = &[
+    "Conv", "ConvInteger", "ConvTranspose", "MaxPool", "AveragePool", "GlobalAveragePool", "GlobalMaxPool",
+    "BatchNormalization", "InstanceNormalization", "Resize", "Upsample", "DepthToSpace", "Transpose", "Pad", "Softmax",
+    "LogSoftmax", "GridSample",
+];
+
 fn all_keys(csv: &str) -> Vec<String> {
     let mut keys: Vec<String> = csv.split(',').filter(|s| !s.is_empty()).map(|s| s.to_string()).collect();
     for k in known_keys() {
@@ -51,11 +58,14 @@ fn generate(seed: u64, n: usize, csv: &str, out: &mut impl Write) {
         .filter(|k| ["Gather", "GatherElements", "GatherND", "ScatterElements", "ScatterND"].contains(&k.as_str()))
         .cloned()
         .collect();
+    let four_d: Vec<String> = targets.iter().filter(|k| FOUR_D.contains(&k.as_str())).cloned().collect();
     for i in 0..n {
         let k = if i % 4 == 0 && !heavy.is_empty() {
             rng.pick(&heavy)
         } else if i % 8 == 1 && !index_ops.is_empty() {
             rng.pick(&index_ops)
+        } else if i % 8 == 2 && !four_d.is_empty() {
+            rng.pick(&four_d)
         } else {
             rng.pick(&targets)
         };
@@ -96,6 +106,27 @@ fn exec_layout(key: &str, seed: u64) -> (String, String) {
             .collect();
         if applied_any {
             alts.push((kind.name().to_string(), run_views(&case.op, &views(&hs), case.n_out)));
+        }
+    }
+    // composed representations (permute o slice/step/crop, optionally o broadcast): several
+    // independent draws for the operators on 4-D images
+    if FOUR_D.contains(&key) {
+        for k in 0..4 {
+            let mut applied_any = false;
+            let hs: Vec<Option<Holder>> = case
+                .inputs
+                .iter()
+                .map(|i| {
+                    i.as_ref().map(|i| {
+                        let (h, a) = hold(i, RepKind::Composed, &mut rng);
+                        applied_any |= a;
+                        h
+                    })
+                })
+                .collect();
+            if applied_any {
+                alts.push((format!("composed#{}", k + 2), run_views(&case.op, &views(&hs), case.n_out)));
+            }
         }
     }
     // mixed assignments: every input varied independently (more of them for the index-driven operators)
